@@ -79,6 +79,15 @@ func VerifAgeBlobs(s Store, repoStr string, d time.Duration) error {
 				_ = os.Chtimes(p, t, t)
 			}
 		}
+		// data already written to open upload sessions ages too (time passes for everything on disk)
+		ups, _ := os.ReadDir(filepath.Join(r.path, uploadDir))
+		for _, e := range ups {
+			p := filepath.Join(r.path, uploadDir, e.Name())
+			if fi, err := os.Stat(p); err == nil {
+				t := fi.ModTime().Add(-d)
+				_ = os.Chtimes(p, t, t)
+			}
+		}
 		return nil
 	case *memRepo:
 		r.mu.Lock()
